@@ -40,7 +40,7 @@ ASSUMPTIONS = [
     "InterfaceSliver.diff files the interface's own modification under 'services'; the oracle accepts it under "
     "services or interfaces (the statement does not name the list)",
 ]
-BUDGET = {"quick": 12000, "thorough": 300000}
+BUDGET = {"quick": 12000, "thorough": 120000}
 MIN_LABEL_FRACTION = {"mode:node": 0.4, "mode:service": 0.1, "mode:interface": 0.05, "op:set-tracked": 0.3,
                       "op:add_nsvc|rm_nsvc": 0.06, "op:add_comp|rm_comp": 0.06, "below-smartnic-edit": 0.03,
                       "equal-user-data-both-sides": 0.15, "edits:0": 0.02, "op:set-untracked": 0.05,
